@@ -225,6 +225,7 @@ func (r *Run) Violate(sig, detail string, replay ...string) {
 	if c18Straddles(r, sig) {
 		return
 	}
+	replay = c18ForkReplay(r, sig, replay)
 	for _, v := range r.viol {
 		if v.Signature == sig && len(v.Replay) <= len(replay) {
 			return // keep the shortest replay per signature
